@@ -15,6 +15,9 @@ import MinizProof.Lemmas.BitWriter
 import MinizProof.Gen.All
 import MinizProof.Spec.Inflate
 import MinizProof.Lemmas.Finite
+import MinizProof.Lemmas.CoreFlushPrefix
+import MinizProof.Props.C10
+import MinizProof.Lemmas.EncZlib
 set_option maxRecDepth 1000000
 
 namespace C12
@@ -63,6 +66,105 @@ theorem flush_mapping :
     TDEFLFlush_from_MZFlush MZFlush.Finish = TDEFLFlush.Finish ∧
     MZFlush_new 1 = G.Res.ok MZFlush.Sync ∧ MZFlush_new 2 = G.Res.ok MZFlush.Sync ∧
     MZFlush_new 3 = G.Res.ok MZFlush.Full := by decide +kernel
+
+
+/-! ### What a flush point means for a decoder (encoder specification → decoder model) -/
+open Model.Core Spec in
+/-- a flushed prefix of a stream: any sequence of NON-FINAL static / dynamic / stored blocks (`C10.StdBlock`)
+    whose tokens are well-formed where they stand -/
+def PrefixOk (maxDist : Nat) : Array UInt8 → List EncBlock → Prop
+  | _, [] => True
+  | out, b :: rest => b.final = false ∧ C10.StdBlock b ∧ ToksOk b.litLens b.distLens #[] maxDist out b.toks ∧
+      PrefixOk maxDist (expandToks #[] out b.toks) rest
+
+open Model.Core Spec in
+/-- the reference decoder reads such a prefix block by block -/
+theorem prefix_is_read_block_by_block (maxDist : Nat) (data : Array UInt8) : ∀ (bs : List EncBlock) (pos : Nat) (out : Array UInt8),
+    PrefixOk maxDist out bs → HasBits data pos (blocksBits pos bs) →
+    DecodesBlocks #[] maxDist data pos out (pos + (blocksBits pos bs).length) (expandBlocks #[] out bs) := by
+  intro bs
+  induction bs with
+  | nil => intro pos out _ _; exact .nil pos out
+  | cons b rest ih =>
+    intro pos out hok h
+    obtain ⟨hf, hstd, htok, hrest⟩ := hok
+    obtain ⟨hb, hr⟩ := HasBits.append (a := b.bits pos) (b := blocksBits (pos + (b.bits pos).length) rest) h
+    obtain ⟨info, hacc, hfin⟩ := (hstd.decodes maxDist).1 data (8 * data.size + 1) pos out (by omega) htok hb
+    have := ih (pos + (b.bits pos).length) (expandToks #[] out b.toks) hrest hr
+    have hlen : pos + (blocksBits pos (b :: rest)).length =
+        pos + (b.bits pos).length + (blocksBits (pos + (b.bits pos).length) rest).length := by
+      show pos + (b.bits pos ++ blocksBits (pos + (b.bits pos).length) rest).length = _
+      rw [List.length_append]; omega
+    rw [hlen]
+    exact .cons hacc (by rw [hfin]; exact hf) this
+
+open Model.Core Spec in
+/-- A FLUSH POINT MAKES ALL INPUT SO FAR DECODABLE (decoder side, for every conforming encoder output):
+    take ANY sequence of non-final static, dynamic and stored blocks (any tokens, any valid codes) whose
+    bits end exactly at the end of the byte string `data` — which is what the compressor's output looks
+    like right after a sync or full flush: complete blocks, the last one the empty stored block that
+    pads to a byte boundary (`sync_marker_aligned`). Then ONE call of the decoder model on `data` alone
+    (fresh decoder, flat buffer with a byte to spare, more input announced), with nothing further, writes
+    exactly the expansion of all those blocks' tokens — all input supplied so far —, consumes every byte
+    and reports "needs more input". (Encoder specification of C10 → reference decoder block by block →
+    `Lemmas/CoreFlushPrefix`: the block simulation of C03 over a run of non-final blocks, then the
+    block-header read that finds no input.) Whether the compressor's output at a flush point IS such a
+    sequence is checked on every run (op `PFX`: the Lean reference decoder on every flush-point prefix). -/
+theorem flush_point_prefix_decodes_to_all_input (data out : Array UInt8) (budget flags : Nat) (bs : List EncBlock)
+    (hflat : hasFlag flags fNonWrapping = true) (hz : hasFlag flags fParseZlib = false)
+    (hstop : hasFlag flags fStopOnBlockBoundary = false) (hmore : hasFlag flags fHasMoreInput = true)
+    (hok : PrefixOk 32768 #[] bs) (h : HasBits data 0 (blocksBits 0 bs))
+    (hend : (blocksBits 0 bs).length = 8 * data.size)
+    (hroom : (expandBlocks #[] #[] bs).size < min budget out.size) :
+    (decompress {} data out 0 budget flags).status = stNeedsMoreInput ∧
+    (decompress {} data out 0 budget flags).consumed = data.size ∧
+    (decompress {} data out 0 budget flags).written = (expandBlocks #[] #[] bs).size ∧
+    (∀ i, i < (expandBlocks #[] #[] bs).size →
+      (decompress {} data out 0 budget flags).out[i]? = (expandBlocks #[] #[] bs)[i]?) := by
+  have hdec := prefix_is_read_block_by_block 32768 data bs 0 #[] hok h
+  have hpre : out.extract 0 0 = #[] := by simp
+  have := flush_prefix_flat {} data out 0 budget flags 32768 _ _ rfl ⟨rfl, rfl, rfl⟩ hflat hz hstop hmore (Nat.zero_le _)
+    (by rw [hpre]; exact hdec) (by rw [Nat.zero_add]; exact hend) (by simpa using hroom)
+  exact ⟨this.1, this.2.2.1, this.2.1, fun i hi => by have := this.2.2.2 i hi; rwa [Nat.zero_add] at this⟩
+
+open Model.Core Spec in
+/-- THE SAME IN ZLIB FORMAT (what `deflate()` users get): a valid header pair, then any such sequence of
+    non-final blocks from bit 16 ending at the end of `data`; the decoder (zlib parsing on, any checksum
+    flags) writes exactly the expansion of the blocks, consumes everything and asks for more. -/
+theorem flush_point_prefix_decodes_to_all_input_zlib (cmf flg : Nat) (hc : cmf < 256) (hf : flg < 256)
+    (hv : zlibHeaderValid cmf flg = true) (data out : Array UInt8) (budget flags : Nat) (bs : List EncBlock)
+    (hflat : hasFlag flags fNonWrapping = true) (hz : hasFlag flags fParseZlib = true)
+    (hstop : hasFlag flags fStopOnBlockBoundary = false) (hmore : hasFlag flags fHasMoreInput = true)
+    (hok : PrefixOk 32768 #[] bs) (h : HasBits data 0 (bitsLE cmf 8 ++ (bitsLE flg 8 ++ blocksBits 16 bs)))
+    (hend : 16 + (blocksBits 16 bs).length = 8 * data.size)
+    (hroom : (expandBlocks #[] #[] bs).size < min budget out.size) :
+    (decompress {} data out 0 budget flags).status = stNeedsMoreInput ∧
+    (decompress {} data out 0 budget flags).consumed = data.size ∧
+    (decompress {} data out 0 budget flags).written = (expandBlocks #[] #[] bs).size ∧
+    (∀ i, i < (expandBlocks #[] #[] bs).size →
+      (decompress {} data out 0 budget flags).out[i]? = (expandBlocks #[] #[] bs)[i]?) := by
+  obtain ⟨h0, h⟩ := HasBits.append (a := bitsLE cmf 8) h
+  obtain ⟨h1, hbody⟩ := h.append
+  simp only [bitsLE_length, Nat.zero_add] at h1 hbody
+  have d0 := byte_of_hasBits data 0 cmf hc (by simpa using h0)
+  have d1 := byte_of_hasBits data 1 flg hf (by simpa using h1)
+  have hdec := prefix_is_read_block_by_block 32768 data bs 16 #[] hok (by simpa using hbody)
+  have hpre : out.extract 0 0 = #[] := by simp
+  have := flush_prefix_flat_zlib {} data out 0 budget flags 32768 _ _ (UInt8.ofNat cmf) (UInt8.ofNat flg) rfl ⟨rfl, rfl, rfl⟩
+    hflat hz hstop hmore (Nat.zero_le _) d0 d1 (by rw [ofNat_toNat_lt hc, ofNat_toNat_lt hf]; exact hv)
+    (by rw [hpre]; exact hdec) hend (by simpa using hroom)
+  exact ⟨this.1, this.2.2.1, this.2.1, fun i hi => by have := this.2.2.2 i hi; rwa [Nat.zero_add] at this⟩
+
+open Model.Core Spec in
+/-- the sync marker is one of these blocks, and after it the stream stands on a byte boundary whatever
+    the bit position before it -/
+theorem sync_marker_block_ends_on_a_byte_boundary (pos : Nat) :
+    C10.StdBlock (encStored false []) ∧ (pos + ((encStored false []).bits pos).length) % 8 = 0 := by
+  refine ⟨.stored false [] (by simp) (by simp), ?_⟩
+  show (pos + (bitsLE 0 3 ++ (List.replicate (padLen pos) 0 ++ (bitsLE 0 16 ++ (bitsLE (65535 - 0) 16 ++ byteBits [])))).length) % 8 = 0
+  simp only [List.length_append, bitsLE_length, List.length_replicate, byteBits_length, List.length_nil]
+  unfold padLen
+  omega
 
 example : ({ out := [], buf := 5, n := 3 } : BW).Inv := by unfold BW.Inv; decide
 example : (syncMarker { out := [7], buf := 5, n := 3 }).out = [7, 5, 0, 0, 255, 255] := by decide +kernel
